@@ -230,6 +230,7 @@ impl Runnable for Cfg {
         }
         obs.class_if(clusters >= 2, "two_or_more_clusters");
         obs.class_if(clusters >= 5, "five_or_more_clusters");
+        obs.class_if(clusters > 100, "more_than_100_clusters");
         // non-trivial: an id-producing estimator that found >= 2 clusters (numbering can move), or
         // an ordering-producing one (OPTICS / kernel) on tied distances
         obs.nontrivial_if(clusters >= 2 || (matches!(self.algo, Algo::Optics | Algo::Kernel) && self.shape == Shape::Lattice));
@@ -255,12 +256,18 @@ pub fn strategy(tier: Tier) -> impl Strategy<Value = Cfg> {
         (20usize..=max_n, 1usize..=4, 2usize..=7, 2usize..=6),
         (3u32..=25, any::<bool>(), 0u8..6, 0usize..=6, 0u8..3, 0usize..=5),
     )
-        .prop_map(|((algo, nn, shape, data_seed), (n, p, blobs, min_points), (tol10, l1, linkage, n_clusters, kernel, sparse_k))| Cfg {
+        .prop_map(|((algo, nn, shape, data_seed), (n, p, blobs, min_points), (tol10, l1, linkage, n_clusters, kernel, sparse_k))| {
+            // size-threshold stratum (1 hierarchical case in 7): more than 100 clusters left standing
+            let many = algo == Algo::Hierarchical && n_clusters == 6;
+            let n_clusters = if many { if data_seed % 2 == 0 { 101 } else { 128 } } else { n_clusters };
+            let shape = if many { Shape::Blobs } else { shape };
+            let blobs = if many { 7 } else { blobs };
+            Cfg {
             algo,
             nn,
             shape,
             data_seed,
-            n: if algo == Algo::Hierarchical { n.min(120) } else { n },
+            n: if many { 130 + n % 40 } else if algo == Algo::Hierarchical { n.min(120) } else { n },
             p,
             blobs,
             min_points,
@@ -270,5 +277,6 @@ pub fn strategy(tier: Tier) -> impl Strategy<Value = Cfg> {
             n_clusters,
             kernel: if algo == Algo::Hierarchical { 0 } else { kernel },
             sparse_k: if sparse_k == 0 { 0 } else { sparse_k + 1 },
+            }
         })
 }
